@@ -24,7 +24,11 @@ def plain(x):
     return x
 
 
-def parse_both(doc):
+OPTS = [None, {"sanitize_html": False}, {"resolve_relative_uris": False}, {"sanitize_html": False, "resolve_relative_uris": False}, {"sanitize_html": True, "resolve_relative_uris": False},
+        {"sanitize_html": False, "resolve_relative_uris": True}]
+
+
+def parse_both(doc, opts=None):
     import feedparser
     import feedparser.api as api
     out = []
@@ -35,7 +39,7 @@ def parse_both(doc):
             with warnings.catch_warnings():
                 warnings.simplefilter("ignore")
                 try:
-                    r = feedparser.parse(doc)
+                    r = feedparser.parse(doc, **(opts or {}))
                     out.append({"feed": plain(r.feed), "entries": plain(r.entries), "version": r.get("version"), "namespaces": dict(r.get("namespaces", {})), "bozo": r.bozo})
                 except Exception as e:
                     out.append({"raises": type(e).__name__})
@@ -78,9 +82,9 @@ def classify(path, sv, lv):
     return ("differs", parts[0], parts[1] if len(parts) > 1 else "", last)
 
 
-def check_doc(doc):
-    s, l = parse_both(doc)
-    w = {"doc": doc}
+def check_doc(doc, opts=None):
+    s, l = parse_both(doc, opts)
+    w = {"doc": doc, "opts": opts}
     if "raises" in s or "raises" in l:
         return []
     fs = []
@@ -107,6 +111,16 @@ def gen_doc(rng):
         fmt = rng.choice(["rss091", "rss092", "rss20", "rss10", "atom03", "atom10"])
         return feedgen.serialize(af, fmt, cdata=False).encode("utf-8")
     # inline XHTML
+    if rng.random() < 0.5:
+        # inline XHTML with something for each post-processing step to do: relative URIs (resolution), style / event-handler attributes and
+        # elements off the allow-list (sanitisation) -- still reference-free
+        parts = ['<p><a href="rel/x.html">l</a> <img src="../i.png" alt="a"/></p>', '<p style="color: red" onclick="f()">styled</p>', "<div><script>x</script><b>kept</b></div>",
+                 '<blockquote cite="q/src">q</blockquote>', "<p>plain</p>", '<p><a href="/abs/y" style="float: left">m</a></p>', "<marquee>m</marquee>"]
+        body, body2 = "".join(rng.sample(parts, rng.randint(1, 3))), "".join(rng.sample(parts, rng.randint(1, 3)))
+        base = rng.choice(["", ' xml:base="http://base.example/dir/"'])
+        return ('<feed xmlns="http://www.w3.org/2005/Atom"%s><title>t</title><id>i</id><updated>2005-01-01T00:00:00Z</updated><link href="self/alt"/><entry><title>e</title><id>j</id>'
+                '<link href="e/1"/><content type="xhtml"><div xmlns="http://www.w3.org/1999/xhtml">%s</div></content><summary type="xhtml"><div xmlns="http://www.w3.org/1999/xhtml">%s</div></summary></entry></feed>'
+                % (base, body, body2)).encode("utf-8")
     body = rng.choice(["<p>plain <b>bold</b> text</p>", "<div><ul><li>a</li><li>b</li></ul></div>", "<p>x<br/>y</p>", '<p><a href="http://example.org/">l</a> <em>e</em></p>', "<blockquote><p>q</p></blockquote>"])
     return ('<feed xmlns="http://www.w3.org/2005/Atom"><title>t</title><id>i</id><updated>2005-01-01T00:00:00Z</updated><entry><title>e</title><id>j</id>'
             '<content type="xhtml"><div xmlns="http://www.w3.org/1999/xhtml">%s</div></content><summary type="xhtml"><div xmlns="http://www.w3.org/1999/xhtml">%s</div></summary></entry></feed>' % (body, body)).encode("utf-8")
@@ -160,18 +174,20 @@ def search(ctx, focus=None):
     failures, n, distinct = [], 0, set()
     for _ in range(ctx.n(500, 15000)):
         d = gen_doc(rng)
+        opts = rng.choice(OPTS) if rng.random() < 0.4 else None
         n += 1
-        distinct.add(d)
-        failures += check_doc(d)
+        distinct.add((d, str(opts)))
+        failures += check_doc(d, opts)
     return {"evaluations": n, "distinct_nontrivial": len(distinct), "failures": failures,
             "rule": "well-formed reference-free feeds: vocabulary-wide documents (RSS 2.0 / RSS 1.0 / Atom 1.0 with dc, dcterms, itunes, media, georss, content, slash, wfw and "
-                    "unknown extension elements), abstract feeds without markup-significant characters in the six XML formats, inline XHTML content; each parsed with "
+                    "unknown extension elements), abstract feeds without markup-significant characters in the six XML formats, inline XHTML content (incl. relative URIs, style / event-handler "
+                    "attributes and elements off the allow-list, with and without xml:base) x the per-call options sanitize_html / resolve_relative_uris (default and five explicit settings); each parsed with "
                     "_XML_AVAILABLE True and False; feed, entries, version, namespaces compared recursively; finding key = difference class; distinct = distinct documents",
             "samples": [{"doc": gen_doc(vlib.random.Random(2)).decode()[:300]}]}
 
 
 def replay(w):
-    fs = check_doc(w["doc"])
+    fs = check_doc(w["doc"], w.get("opts"))
     return (bool(fs), fs[0].what if fs else "strict and loose results identical")
 
 
